@@ -4,6 +4,7 @@ From V Require Import model.Base model.RingQueue proofs.RingQueueProofs.
 From V Require Import model.Obs model.Vec proofs.VecProofs.
 From V Require Import model.SlotMap proofs.SlotMapProofs.
 From V Require Import model.Str proofs.StrProofs proofs.StrRefine model.FlatMap proofs.FlatMapProofs proofs.FlatMapRefine.
+From V Require Import model.RelocOption proofs.RelocOptionProofs.
 From Coq Require Import Permutation.
 
 (* queue.rs: for every capacity (0 included) and every operation sequence the ring buffer
@@ -317,3 +318,10 @@ Theorem c16_flatmap_regression_cap0 :
 Proof. exact fm_regression_cap0. Qed.
 Print Assumptions c16_flatmap_regression_cap0.
 
+
+(* ------------------------------------------------------------------------------------------
+   relocatable_option.rs: for every content and every operation sequence the cell returns (and
+   drops) exactly what core::option::Option would. *)
+Theorem c16_option_refines_option : forall (o : option N) (ops : list oop), ro_run o ops = so_run o ops.
+Proof. exact ro_refines_option. Qed.
+Print Assumptions c16_option_refines_option.
